@@ -27,6 +27,7 @@ struct Stats {
     truncs_eof: usize,
     reject_cases: usize,
     md5_cases: usize,
+    total_cases: usize,
     err_kinds: std::collections::BTreeMap<String, usize>,
 }
 
@@ -91,7 +92,7 @@ fn main() {
     quiet_panics();
     let seed = env_seed();
     let thorough = env_tier_thorough();
-    let mut st = Stats { files: 0, flips: 0, flips_err: 0, flips_panic: 0, flips_silent: 0, truncs: 0, truncs_err: 0, truncs_eof: 0, reject_cases: 0, md5_cases: 0, err_kinds: Default::default() };
+    let mut st = Stats { files: 0, flips: 0, flips_err: 0, flips_panic: 0, flips_silent: 0, truncs: 0, truncs_err: 0, truncs_eof: 0, reject_cases: 0, md5_cases: 0, total_cases: 0, err_kinds: Default::default() };
 
     // ---- (1) CRC observations
     let mut rng = Rng::new(seed, 0xC2C);
@@ -301,6 +302,36 @@ fn main() {
                 }
             }
         }
+        // ---- (5) a STREAMINFO total that disagrees with the frames present: a clean end is only acceptable with
+        // exactly the announced number of samples (never more, never fewer); anything else must be an error
+        {
+            let ch = (((bytes[20] >> 1) & 7) + 1) as usize;
+            let actual = (pcm.len() / ch) as u64;
+            let set_total = |f: &mut Vec<u8>, t: u64| {
+                f[21] = (f[21] & 0xF0) | ((t >> 32) & 0x0F) as u8;
+                f[22] = (t >> 24) as u8; f[23] = (t >> 16) as u8; f[24] = (t >> 8) as u8; f[25] = t as u8;
+            };
+            let mut totals: Vec<u64> = vec![1, actual / 2, actual.saturating_sub(1), actual.saturating_sub(15), actual.saturating_sub(16), actual.saturating_sub(17), actual + 1, actual + 16, actual * 2 + 3];
+            totals.retain(|t| *t >= 1 && *t != actual);
+            totals.sort(); totals.dedup();
+            for t in totals {
+                let mut f = bytes.clone();
+                set_total(&mut f, t);
+                let d = decode_all(&f);
+                st.total_cases += 1;
+                match &d.end {
+                    End::Eof => {
+                        if d.samples.len() as u64 != t * ch as u64 {
+                            viol("declared-total-ignored", &format!("STREAMINFO announces {} samples per channel, the frames hold {}; decoding ended cleanly with {} samples per channel", t, actual, d.samples.len() / ch), &f, &[("declared", t.to_string()), ("present", actual.to_string())]);
+                        } else if d.samples[..] != pcm[..d.samples.len()] {
+                            viol("declared-total-wrong-samples", "a shorter declared total yields samples that are not a prefix of the PCM", &f, &[]);
+                        }
+                    }
+                    End::Err(_) => {}
+                    End::Panic(p) => viol("declared-total-panic", &format!("declared total {} vs {} present: panic {}", t, actual, p), &f, &[]),
+                }
+            }
+        }
         {
             let mut f = bytes.clone();
             for k in 0..16 { f[26 + k] = 0; }
@@ -317,7 +348,7 @@ fn main() {
         ("t", esc("stat")), ("files", st.files.to_string()), ("flips", st.flips.to_string()),
         ("flips_err", st.flips_err.to_string()), ("flips_panic", st.flips_panic.to_string()), ("flips_silent", st.flips_silent.to_string()),
         ("truncs", st.truncs.to_string()), ("truncs_err", st.truncs_err.to_string()), ("truncs_eof", st.truncs_eof.to_string()),
-        ("reject_cases", st.reject_cases.to_string()), ("md5_cases", st.md5_cases.to_string()), ("crc_cases", ncrc.to_string()),
+        ("reject_cases", st.reject_cases.to_string()), ("md5_cases", st.md5_cases.to_string()), ("declared_total_cases", st.total_cases.to_string()), ("crc_cases", ncrc.to_string()),
         ("flip_outcomes", format!("{{{}}}", kinds.join(","))),
     ]));
 }
